@@ -517,7 +517,7 @@ def mod(a, m):
 
 _NEVER_NONE = {"cat", "i2b", "b2i", "hash", "hmac", "add", "mul", "mod", "len", "hex", "unhex", "slice", "scat", "lcat",
                "map", "join", "rep", "cmp", "not", "land", "lor", "truth", "inrange", "powmod", "bitlen", "csprng", "floordiv",
-               "band", "bor", "bxor", "shl", "shr", "pow"}
+               "band", "bor", "bxor", "shl", "shr", "pow", "fn", "sized", "fmt", "rev", "i2b_signed", "b2i_signed"}
 
 CMP_SWAP = {"lt": "gt", "gt": "lt", "le": "ge", "ge": "le", "eq": "eq", "ne": "ne"}
 CMP_NEG = {"lt": "ge", "ge": "lt", "gt": "le", "le": "gt", "eq": "ne", "ne": "eq", "in": "notin", "notin": "in",
